@@ -48,7 +48,7 @@ theorem emitInv_sendMessage (e : Ep) (m : Msg) (hi : EmitInv e) (hm : emitOK e.c
     EmitInv (sendMessage e m) := by
   unfold EmitInv at *
   intro x hx
-  simp only [sendMessage, kaReset, idleReset, List.mem_append, List.mem_singleton] at hx
+  simp only [sendMessage, sendReady, kaReset, idleReset, List.mem_append, List.mem_singleton] at hx
   rcases hx with hx | hx
   · exact hi x hx
   · subst hx; exact hm
@@ -110,7 +110,7 @@ theorem emitInv_writeConn (e : Ep) (n : Nat) (up : Bool) (hi : EmitInv e) : Emit
     · exact hi
   · simp only []
     split
-    · exact emitInv_of_view (ev_doClose e) hi
+    · exact hi
     · split
       · exact emitInv_of_view (by rw [ev_checkSessTerm]; rfl) hi
       · exact emitInv_of_view rfl hi
@@ -279,7 +279,9 @@ theorem emitInv_step (e : Ep) (ev : Ev) (hi : EmitInv e) : EmitInv (step e ev).1
     simp only []
     split
     · exact hi
-    · exact emitInv_pump _ _ hi
+    · split
+      · exact hi
+      · exact emitInv_of_view rfl (emitInv_pump _ _ (emitInv_of_view (e := e) rfl hi))
   | rx c =>
     simp only []
     split
